@@ -29,7 +29,7 @@ Proof. exact ascend_spec. Qed.
 Print Assumptions c16_ascend.
 
 Example c16_example :
-  let s0 := create_column coll0 1 (mkcol false (λ a b, b) V0 ∅) false in
+  let s0 := create_column coll0 1 (mkcol false (λ a b, b) V0 id ∅) false in
   let s1 := create_computed s0 7 1 (XSorted ∅) in
   let t := foldl (λ t p, push t 1 (mkop KPut (fst p) (VB (snd p)))) txn0
                  [(0, [98]); (1, [97]); (2, [98]); (3, [97]); (4, [99])]%N in
